@@ -19,6 +19,8 @@ rule sees the same tree whether or not a developer introduced a temporary right 
 
   N3  `pass` is dropped from every block that has another statement.
 
+  N4  `with A, B as v: body` is written as the nested `with A: with B as v: body`.
+
 All are applied until nothing changes.  Locations are kept (the merged statement
 keeps the position of the `return` / `if`; the expression keeps its own), so reports still
 point into the real source.  `# type:` comments of a removed temporary are dropped: no rule
@@ -149,7 +151,19 @@ def _blocks(node):
             yield c.body
 
 
+def _split_withs(fn):
+    """N4: `with A, B as v: body`  ==>  `with A: with B as v: body` (the language defines them as equal)."""
+    for n in ast.walk(fn):
+        if isinstance(n, ast.With) and len(n.items) > 1:
+            inner = ast.With(items=n.items[1:], body=n.body, type_comment=None)
+            ast.copy_location(inner, n)
+            n.items = n.items[:1]
+            n.body = [inner]
+    # ast.walk visits the freshly made inner node later, so longer item lists are split fully
+
+
 def _canon_function(fn):
+    _split_withs(fn)
     again = True
     while again:
         again = False
